@@ -112,6 +112,7 @@ def run_prop(prop, tier):
             run_c20_oracle(chk, hists, tmp, model, bres)
             c20_data_stream(chk, tier, tmp)
             c20_failed_write_stream(chk, tier, tmp)
+            wf.refused_then_corrected('C20', tier, model, bres, chk, 30, 300)
         if chk.disagreements and not chk.failures and bres.ok:
             # failing-input search: the correspondence is broken; look for a concrete history on which the
             # property itself fails, over a much larger set of histories (oracles only)
@@ -463,7 +464,7 @@ def run_c20_oracle(chk, hists, tmp, model, bres):
             foreign = False
             for op in h['ops']:
                 if op['out'] != 'ok':
-                    if any(o2['out'] == 'ok' and o2['lf'] != op['lf'] and o2['kind'] == op['kind'] and o2['sn'] == op['sn']
+                    if any(o2['out'] == 'ok' and o2['lf'] != op['lf'] and o2['kind'] == op['kind'] and (o2['sn'] or None) == (op['sn'] or None)
                            for o2 in h['ops']):
                         foreign = True
             key = 'rejected:changes-writability' + (':set-of-another-logical-file' if foreign and datas[0][0] == 'err' else '')
